@@ -37,6 +37,13 @@ OWNERS = ("hir_ty::InferenceCtx", "hir_ty::WorldTys", "hir_ty::globals::GlobalIn
           "codegen::compiler::functions::FunctionCompiler", "hir::common::locations::ComptimeResultMap")
 
 
+NON_LOCATION_KEYS = {
+    "hir::common::names::Name": "extern functions: one symbol per name by definition, whichever body refers to it",
+    "&'static str": "extern functions the compiler itself declares: one symbol per name",
+    "codegen::builtin::BuiltinFunction": "one compiler-made body per builtin kind, independent of the body that calls it",
+}
+
+
 def split_generics(t):
     """top-level generic arguments of a type string"""
     i = t.find("<")
@@ -75,6 +82,20 @@ def r16a(ctx, run):
                 is_set = "Set" in head or "TopoSort" in head
                 locish = re.search(r"(Naive\w*Loc|Fqn|Concrete\w*Loc|ComptimeLoc)", key)
                 per_body = is_set and locish or any(p in val for p in PER_BODY_VALUES)
+                if not locish and any(p in val for p in PER_BODY_VALUES):
+                    # a per-body artefact under a key that is no location at all
+                    outlives_body = not a["path"].endswith("FunctionCompiler") or fty.lstrip().startswith("&")
+                    if not outlives_body:
+                        continue        # a table of the compiler of ONE body: its keys need only be unique in that body
+                    why = NON_LOCATION_KEYS.get(key.strip())
+                    if why:
+                        run.exempt("%s:%d" % (a["file"], a["lo"]), "%s.%s is keyed by %s" % (a["path"].rsplit("::", 1)[-1], fname, key), why)
+                    else:
+                        run.finding(a["path"], "table-key:" + fname, a["file"], a["lo"],
+                                    "%s.%s stores %s per %s, and the table lives longer than the compilation of one body: the key tells neither files nor instantiations apart "
+                                    "(an arena index is unique inside one file only), so two bodies share the entry and one of them reads the other's artefact"
+                                    % (a["path"], fname, val, key))
+                    continue
                 if not locish or not per_body:
                     continue
                 n += 1
@@ -242,6 +263,50 @@ def r16d(ctx, run):
                   "another call with different arguments" % (what, ln, sorted(foreign) or sorted(t for t in tags if t.startswith("m:"))[:5]))
 
 
+def r16e(ctx, run):
+    """a location's function id is its own: the table `functions` (ConcreteLoc -> FuncId) is only ever asked about, and written for, the location in hand
+    (`loc.wrap()`), and what is written is a function declared right there (declare_function / to_sig_and_func_id) - or the compiler-made body of a
+    builtin, which is one per builtin kind by construction.  A search through the table for 'an equivalent' entry would bind one instantiation to the
+    machine code of another (their bodies differ whenever a comptime argument is used in the body only)."""
+    import prov
+    sites = [(ctx.syn.fn("get_func_id", "codegen/src/compiler/mod.rs"), "functions"),
+             (ctx.syn.fn("FunctionCompiler::unnamed_func_to_local", "codegen/src/compiler/functions.rs"), "self.functions")]
+    FRESH = ("m:declare_function", "m:to_sig_and_func_id")
+    for f, table in sites:
+        P = prov.Prov(f)
+        uses = []
+
+        def on(n, sc, uses=uses, P=P, table=table):
+            if n.get("k") == "mcall" and canon(n["r"]) == table:
+                uses.append((n, [P.tags(a, sc) for a in n["a"]]))
+        P.visit(on)
+        if len(uses) < 2:
+            raise LookupError("uses of the function table in %s: %d" % (f.qual, len(uses)))
+        for n, tags in uses:
+            key = "%s-of-%s" % (n["m"], table)
+            if n["m"] not in ("get", "insert"):
+                run.finding(f.qual, "table-searched:" + n["m"], f.file, n["ln"],
+                            "%s calls `%s.%s(..)`: the function table is searched for entries of OTHER locations; an instantiation must get the function declared for its own "
+                            "location (its body depends on its own comptime arguments), so the table may only be asked `get(&loc.wrap())` and written `insert(loc.wrap(), id)`"
+                            % (f.qual, table, n["m"]))
+                continue
+            ktags = tags[0]
+            key_ok = "param:loc" in ktags and not any(t.startswith("param:") and t != "param:loc" for t in ktags)
+            if n["m"] == "get":
+                run.check(key_ok, f.site(n["ln"]), "%s: the table is asked about the location in hand" % f.qual, f.qual, key, f.file, n["ln"],
+                          "the function table is asked about a key made from %s, not from the location whose function is wanted" % sorted(ktags))
+                continue
+            vtags = tags[1]
+            fresh = any(t in vtags for t in FRESH)
+            builtin = "param:compiler_defined_functions" in vtags
+            from_table = any(t in vtags for t in ("param:functions", "m:.functions"))
+            run.check(key_ok and (fresh or builtin) and not from_table, f.site(n["ln"]),
+                      "%s: %s for the location in hand" % (f.qual, "a freshly declared function is recorded" if fresh else "the builtin's one compiler-made function is recorded"),
+                      f.qual, key, f.file, n["ln"],
+                      "the id recorded for this location comes from %s: it must be a function declared here for this location (%s) or a builtin's compiler-made function, never an id "
+                      "read from the table under another key" % (sorted(t for t in vtags if t.startswith(("m:", "param:")))[:8], " / ".join(FRESH)))
+
+
 def _reuse(modname, fname):
     def f(ctx, run):
         mod = __import__(modname)
@@ -255,6 +320,7 @@ def rules(ctx):
         Rule("R16.b", "process-global tables written by the type evaluator are not keyed per declaration while holding per-instantiation values", 1, r16b),
         Rule("R16.c", "no key of a per-body table is computed from a location whose comptime arguments were erased (to_naive)", 40, r16c),
         Rule("R16.d", "the comptime arguments bound to a call are the ones evaluated for that call (no other supplier)", 3, r16d),
+        Rule("R16.e", "a location's function id is its own: the function table is asked and written under the location in hand only, with a function declared for it", 7, r16e),
         Rule("R15.f", "a comptime parameter evaluates to the comptime argument at its comptime_idx (shared with C15)", 2, _reuse("c15", "r15f")),
         Rule("R27.e", "every Mangle impl evaluated down to the parts list: the generic id of an instantiation is present on every branch (shared with C27)", 20, _reuse("c27", "r27e")),
     ]
